@@ -259,7 +259,11 @@ class FOs(object):
     def getuid(self):
         return self._h.uid
 
-    geteuid = getuid
+    def geteuid(self):
+        # real and effective uid differ (as under a set-uid wrapper): trash-cli names its
+        # `$uid` directories after the REAL uid only (it never calls geteuid on the unchanged tree),
+        # so a command that starts to use the effective one looks into other directories than the rest
+        return self._h.uid + 1
 
     def getgid(self):
         return self._h.uid
